@@ -1153,13 +1153,14 @@ impl<'a, 'ast> Visit<'ast> for Rewriter<'a> {
             }
         }
         if self.cfg.rmatch && name == "partition_point" && m.args.len() == 1 {
-            // R-ppoint: `s.partition_point(|x| *x <= K)` -> `vx_partition_point_le(s, K)` (prelude, std's
+            // R-ppoint: `s.partition_point(|x| *x <= K)` -> `s.vx_partition_point_le(K)` (`<`: `_lt`; prelude trait, std's
             // documented meaning on a sorted slice: the number of elements <= K)
             if let Expr::Closure(c) = &m.args[0] {
                 if let (1, Expr::Binary(b)) = (c.inputs.len(), &*c.body) {
                     let pn = norm(self.sf.slice(self.r(c.inputs[0].span())));
                     let ln = norm(self.sf.slice(self.r(b.left.span())));
-                    if matches!(b.op, BinOp::Le(_)) && ln == format!("*{}", pn) {
+                    if (matches!(b.op, BinOp::Le(_)) || matches!(b.op, BinOp::Lt(_))) && ln == format!("*{}", pn) {
+                        let target = if matches!(b.op, BinOp::Le(_)) { ".vx_partition_point_le(" } else { ".vx_partition_point_lt(" };
                         self.visit_expr(&m.receiver);
                         self.visit_expr(&b.right);
                         let rr = self.r(m.receiver.span());
@@ -1168,9 +1169,8 @@ impl<'a, 'ast> Visit<'ast> for Rewriter<'a> {
                         self.edits.replace(
                             whole,
                             vec![
-                                Piece::Lit("vx_partition_point_le(".into()),
                                 Piece::Src(rr.0, rr.1),
-                                Piece::Lit(", ".into()),
+                                Piece::Lit(target.into()),
                                 Piece::Src(kr.0, kr.1),
                                 Piece::Lit(")".into()),
                             ],
